@@ -79,7 +79,7 @@ def run(ctx):
                     if abs(a - jabs) < 29 * 86400:
                         births.append(from_abs(a))
     births += [(Y, 12, 31, 23, 59, 59), (Y, 1, 1, 0, 0, 0), (Y, 2, 29, 23, 30, 0), (Y + 1, 1, 31, 22, 59, 45)]
-    births = sorted(set(births))
+    births = sorted(set(b for b in births if CAL.exists(b[0], b[1], b[2])))
 
     def limit(x):
         b, man = x
